@@ -117,6 +117,23 @@ fn main() {
         });
         sink.merge(sd);
     }
+    // encrypted_server_name: suite x group (registered or not, in every combination) x field sizes; key_share: group x size
+    {
+        let mut k = vcommon::catalogue::esni_grid();
+        k.extend(vcommon::catalogue::group_size_extensions());
+        let sx = par_run(run.threads, k.len().div_ceil(64), |c, sink| {
+            for w in k.iter().skip(c * 64).take(64) {
+                for t in [&EXTENSION, &EXTENSIONS] {
+                    if !matches!((t.reference)(&w.buf), Ref::Must(..)) {
+                        continue;
+                    }
+                    let (g, _) = check_case(run.prop, t, &w.buf, sink);
+                    sink.count("extension field grids", if g.is_ok() { "accepted" } else { "REJECTED" });
+                }
+            }
+        });
+        sink.merge(sx);
+    }
     // records that look like SSLv2-compatible hellos / other protocols are records like any other for the envelope parsers
     let foreign = vcommon::catalogue::foreign_protocols();
     let sf = par_run(run.threads, foreign.len(), |i, sink| {
